@@ -41,7 +41,7 @@ StepClauses(r) ==
     \cup FailClause("C10.Active", r.st.active => (st' = "running" /\ tr' = "active" /\ bg' = {}))
     \cup FailClause("C10.Rejected", rejected' => UNCHANGED <<st, tr, prior, bg, prio, wait>>)
     \cup FailClause("C10.OutOfTurnRejected",
-           (r.ev = "RawTrigger" /\ st \notin SrcOf(r.args.name)) => (rejected' /\ UNCHANGED <<st, tr, prior, bg, prio, wait, slot>>))
+           (r.ev = "RawTrigger" /\ NotAllowed(r.args.name)) => (rejected' /\ UNCHANGED <<st, tr, prior, bg, prio, wait, slot>>))
     \cup FailClause("C10.ArchiveReturns", \A i \in 1..(Len(path') - 1) : path'[i] = "archiving" => path'[i + 1] = prior')
     \cup FailClause("C12.OnlyWhenAllowed",
            \A i \in DOMAIN r.obs.fires :
@@ -74,7 +74,7 @@ ModelStep(r) ==
       [] r.ev = "SubmitFail" -> SubmitFail
       [] r.ev = "PollerObserve" -> PollerObserve(r.args.k) \/ UNCHANGED <<st, tr, bg, prio, wait, slot>>
       [] r.ev = "PollerDone" -> PollerDone(r.args.k)
-      [] r.ev = "RawTrigger" -> RawTrigger(r.args.name) \/ st \in SrcOf(r.args.name)
+      [] r.ev = "RawTrigger" -> RawTrigger(r.args.name) \/ ~NotAllowed(r.args.name)
       [] r.ev = "Quiesce" -> UNCHANGED <<st, tr, bg, prio, wait, slot>>
       [] OTHER -> TRUE
 
